@@ -142,7 +142,7 @@ NewSession(x, A, g) ==
 (* Consume *)
 ConsumeCall(c) ==
   LET x == cl[c] IN
-  /\ x.pc = "idle" /\ x.closed # "done" /\ x.calls < MaxCalls
+  /\ x.pc = "idle" /\ x.closed # "done" /\ x.calls < MaxCalls[c]
   /\ (x.pcancel \/ x.closed # "no") => x.calls = 0
   /\ IF x.closed # "no"
      THEN /\ cl' = [cl EXCEPT ![c].calls = @ + 1]
@@ -516,6 +516,13 @@ H(m, n, k) == [mode |-> m, n |-> n, mark |-> k]
 HandlersA == {H("early", 1, 1), H("drain", 1, 2), H("ctxwait", 0, 0)}
 HandlersB == {H("early", 0, 0), H("early", 1, 0), H("early", 2, 2), H("drain", 0, 2), H("drain", 2, 1), H("ctxwait", 1, 1)}
 HandlersOne == {H("drain", 1, 2)}
+HandlersEarly == {H("early", 1, 1)}
+HandlersTwo == {H("drain", 1, 2), H("early", 1, 1)}
+HandlersResume == {H("early", 1, 0), H("early", 1, 1), H("early", 2, 1), H("early", 2, 2)}
+CC1r == {<<-1>>, <<1>>}
+MC2 == [c \in Clients |-> 2]
+MC21 == [c \in Clients |-> IF c = "c1" THEN 2 ELSE 1]
+MC3 == [c \in Clients |-> 3]
 InitOldest == {-2}
 InitNewest == {-1}
 InitBoth == {-2, -1}
